@@ -475,6 +475,11 @@ var opDefs = []opDef{
 					segs[k] = types.Segment{}
 				}
 			}
+			if r.Bool() { // many of them: whatever order the map is walked in, the three that count are a small minority
+				for k := 4; k < 64; k++ {
+					segs[uint8(k)] = types.Segment{}
+				}
+			}
 		}
 		p := types.TimeProfile{ID: id, LinkedProfileID: linked, From: dateFromTok(tf), To: dateFromTok(tt), Weekdays: wd, Segments: segs}
 		// the "no date" value also exists as the zero instant carrying a Location (it reads 0000-12-31 west of Greenwich)
